@@ -91,7 +91,9 @@ def actions(n, kent, morder, mode, cmode, ang):
     return acts
 
 
-QUICK = [("n1d3", 1, 3, "full", "full"), ("n2d3", 2, 3, "mid", "small")]
+# (lead) quick shrunk to the "mid"/"small" alphabets: the former quick spaces (n1d3 full, n2d3 mid) cost ~25 CPU-min
+# (big Fock spaces, 2 cutoffs per transition); both are contained in the thorough tier (n1d3, n2d3f)
+QUICK = [("n1d3s", 1, 3, "mid", "small"), ("n2d3s", 2, 3, "small", "small")]
 THOROUGH = [
     ("n1d3", 1, 3, "full", "full"),
     ("n1d4", 1, 4, "mid", "small"),
